@@ -387,9 +387,11 @@ func tooLarge(w *mon.W, c *mon.Case, get func(scfg) *sengine) {
 		if r.Chance(4) {
 			expect = "Expect: 100-continue\r\n"
 		}
-		stream = append(stream, fmt.Sprintf("POST /big HTTP/1.1\r\nHost: h\r\n%s%sContent-Length: %d\r\n\r\n", ctype, expect, n)...)
+		// ... and whatever the protocol version of the request line says
+		ver := r.Str("HTTP/1.1", "HTTP/1.1", "HTTP/1.0", "HTTP/1.0\r\nConnection: keep-alive")
+		stream = append(stream, fmt.Sprintf("POST /big %s\r\nHost: h\r\n%s%sContent-Length: %d\r\n\r\n", ver, ctype, expect, n)...)
 		stream = append(stream, body...)
-		kindDesc = strings.TrimSpace(ctype + expect)
+		kindDesc = strings.TrimSpace(ctype+expect) + " " + strings.Replace(ver, "\r\n", " ", 1)
 	}
 	stream = append(stream, "GET /after HTTP/1.1\r\nHost: h\r\n\r\n"...)
 	frags, policy := wire.FragSchedule(r, stream, nil)
